@@ -10,6 +10,8 @@ import (
 
 // pureLibrary: effect-free library functions outside the observer packages.
 var pureLibrary = map[string]bool{
+	"go.yaml.in/yaml/v4.Marshal":           true, // rendering is a function of the document (the document is not modified)
+	"sigs.k8s.io/yaml.YAMLToJSON":          true,
 	"(net/http.Header).Get":                true,
 	"(net/http.Header).Values":             true,
 	"(*net/http.Request).PathValue":        true,
